@@ -2,4 +2,4 @@
    An unrecognised key expression yields KsUnknown, a changed function body yields false; either
    breaks C11_facts_pinned. *)
 From MxlGen Require Import SymRepr.
-Definition gen_mxlgen_facts : gen_facts := mkGenFacts KsInit KsInit KsPlain KsPlain KsRxnStoich RegFresh true true PnAllArgs IcPositional RnDelegated EmSympy15.
+Definition gen_mxlgen_facts : gen_facts := mkGenFacts KsInit KsInit KsPlain KsPlain KsRxnStoich RegFresh true true PnAllArgs IcPositional RnDelegated EmExact.
